@@ -13,7 +13,7 @@ LEVEL = "exploration"
 RULE = ("Hypothesis draws a signing plan (alg in 14 algorithms, key built from generated material incl. special scalars, "
         "serialization compact/flattened/general(1-3 members), b64 absent/true/false, header members split between protected "
         "and unprotected, payload class) x key mode (key, key set with/without kid, callable) x key import form "
-        "(JWK dict, registry, PEM, DER) x role metadata (none / signer key_ops [sign] and verifier key_ops [verify] / use sig); joserfc signs, joserfc verifies with the public form; oracle = exact payload octets "
+        "(JWK dict, registry, PEM, DER) x role metadata (none / signer key_ops [sign] and verifier key_ops [verify] / use sig); optionally after another registry with required caller parameters was used in the process; joserfc signs, joserfc verifies with the public form; oracle = exact payload octets "
         "and header members (+kid). non-trivial: every case (a real signature is produced); distinct = digest of "
         "(plan label, key mode, key forms, key class).")
 ASSUMPTIONS = ["keys are built with `cryptography` number objects from generated scalars (not with joserfc)",
